@@ -292,7 +292,8 @@ def e2e_case(draw, broker):
          "deferred_until_ago_us": draw(opt(st.integers(0, 10**9))),
          "store_result": draw(st.booleans()), "result_id": draw(IDS), "result_ttl_us": draw(opt(st.integers(US, 10**10))),
          "args": args, "bucket": draw(st.booleans()) if broker in ("mem", "redis", "amqp") else False,
-         "args_ttl_us": draw(opt(st.integers(US, 10**10))), "phase_us": draw(st.integers(0, 999_999))}
+         # (the bucket must outlive the scenario, ~25 virtual seconds; an expired argument bucket is outside this property)
+         "args_ttl_us": draw(opt(st.integers(120 * US, 10**10))), "phase_us": draw(st.integers(0, 999_999))}
     if broker != "mem":
         c["lat"] = draw(st.lists(st.sampled_from([0.0, 0.001]), max_size=6))
     return c
